@@ -145,9 +145,86 @@ def pinned_f14(ctx):
                                    "case": {"nodes": "checks/f14_nodes.json"}, "verdict": v})
 
 
+def gen_flow(ctx):
+    """pairs of dyadic nets (degree 1..5) for the candidate-flow trace: crossings, touching boxes (lattice), disjoint, straight / nearly
+    straight curves (linearized at once), elevated lines, overlapping sub-arcs of one curve (more than 64 candidates: pruning, TooMany)"""
+    rng = ctx.rng
+    out = []
+    n = 60 if ctx.quick() else 1200
+    kinds = ["random", "random", "lattice", "lattice", "flat", "flat", "lines", "elevated-line-vs-curve", "overlap", "touch"]
+    while len(out) < n:
+        kind = rng.choice(kinds)
+        d1, d2 = rng.randint(1, 5), rng.randint(1, 5)
+        if kind == "random":
+            n1 = [[F(rng.randint(-64, 64), 8) for _ in range(d1 + 1)] for _ in range(2)]
+            n2 = [[F(rng.randint(-64, 64), 8) for _ in range(d2 + 1)] for _ in range(2)]
+        elif kind == "lattice":
+            n1 = [[F(rng.randint(0, 4)) for _ in range(d1 + 1)] for _ in range(2)]
+            n2 = [[F(rng.randint(0, 4)) for _ in range(d2 + 1)] for _ in range(2)]
+        elif kind == "flat":      # tiny second differences: linearization error below 2^-26 early or at once
+            def flat(d):
+                a, b = F(rng.randint(-16, 16), 4), F(rng.randint(-16, 16), 4)
+                c, e = F(rng.randint(-16, 16), 4), F(rng.randint(-16, 16), 4)
+                eps = F(1, 2 ** rng.choice([20, 26, 28, 30, 34]))
+                return [[a + (b - a) * F(i, d) * 1 + eps * rng.randint(-2, 2) for i in range(d + 1)],
+                        [c + (e - c) * F(i, d) * 1 + eps * rng.randint(-2, 2) for i in range(d + 1)]]
+            d1, d2 = rng.choice([1, 2, 4]), rng.choice([1, 2, 4])
+            n1, n2 = flat(d1), flat(d2)
+        elif kind == "lines":
+            n1 = [[F(rng.randint(-8, 8)) for _ in range(2)] for _ in range(2)]
+            n2 = [[F(rng.randint(-8, 8)) for _ in range(2)] for _ in range(2)]
+            for _k in range(rng.randint(0, 2)):
+                n1 = [oq.elevate(r) for r in n1]
+            for _k in range(rng.randint(0, 2)):
+                n2 = [oq.elevate(r) for r in n2]
+        elif kind == "elevated-line-vs-curve":      # one candidate is a linearization (error 0) from the start
+            n1 = [[F(rng.randint(-8, 8)) for _ in range(2)] for _ in range(2)]
+            for _k in range(rng.randint(0, 2)):
+                n1 = [oq.elevate(r) for r in n1]
+            n2 = [[F(rng.randint(-8, 8)) for _ in range(d2 + 1)] for _ in range(2)]
+            if rng.random() < 0.5:
+                n1, n2 = n2, n1
+        elif kind == "overlap":
+            d1 = rng.randint(2, 3)
+            n1 = [[F(rng.randint(-16, 16), 2) for _ in range(d1 + 1)] for _ in range(2)]
+            a, b = rng.choice([(F(0), F(1)), (F(1, 4), F(1)), (F(0), F(1, 2)), (F(1, 4), F(3, 4))])
+            n2 = [oq.specialize(r, a, b) for r in n1]
+        else:                      # touch: second curve starts where the first one ends, boxes share an edge or a corner
+            n1 = [[F(rng.randint(0, 4)) for _ in range(d1 + 1)] for _ in range(2)]
+            n2 = [[n1[0][-1]] + [n1[0][-1] + F(rng.randint(0, 4)) for _ in range(d2)],
+                  [n1[1][-1]] + [F(rng.randint(-4, 8)) for _ in range(d2)]]
+        if not all(F(float(x)) == x for r in n1 + n2 for x in r):
+            continue
+        out.append({"n1": n1, "n2": n2, "kind": kind, "rounds": 7 if max(len(n1[0]), len(n2[0])) <= 4 else 5})
+    return out
+
+
+def coq_flow(c, obs):
+    if obs[0][0] in ("exc", "malformed"):
+        return None
+    from common import coq_list
+    b = lambda x: "true" if x else "false"
+    pd = lambda p: "(%s, %s, %s, %s, %s, %s)" % (coq_q(p[0]), coq_q(p[1]), b(p[2]), coq_q(p[3]), coq_q(p[4]), b(p[5]))
+    rounds = []
+    flag, trace = obs[0][1]
+    for cands, events, pruned, verdict in trace:
+        rounds.append("([%s], [%s], %s, %d%%nat)" % ("; ".join(pd(p) for p in cands),
+                                                    "; ".join("(%d%%nat, %s)" % (e[0], pd(e[1:])) for e in events), b(pruned), verdict))
+    return ["(%s, %s, %s, %s, %d%%nat, %s, [%s])" % (coq_list(c["n1"][0]), coq_list(c["n1"][1]), coq_list(c["n2"][0]), coq_list(c["n2"][1]),
+                                                    c["rounds"], b(flag), "; ".join(rounds))]
+
+
 def run(ctx):
     prove(ctx, DEPS)
     ic.correspond_lines(ctx, n_quick=150)
+    fl = gen_flow(ctx)
+    correspond(ctx, "candidate_flow_of_all_intersections", fl,
+               [("hazmat.round_trace", lambda c: [enc_arr(c["n1"]), enc_arr(c["n2"]), c["rounds"]], lambda res, c: [("val", res)])],
+               coq_flow, HEADER, "chk_rounds", configs=("pure",), nontrivial=lambda c: c["kind"] != "lines", shard=8)
+    kinds = {}
+    for c in fl:
+        kinds[c["kind"]] = kinds.get(c["kind"], 0) + 1
+    ctx.corr["candidate_flow_of_all_intersections"]["distribution(kind)"] = kinds
 
     def coq_add(c, obs):
         if obs[0][0] in ("exc", "malformed"):
@@ -186,9 +263,13 @@ def run(ctx):
     return finish(ctx, "PROVED: what can never go wrong - disjoint control boxes imply no common point (every degree, over R, from the "
                   "convex-hull theorem of C01); two non-parallel segments give exactly their crossing (regenerated check_lines); the "
                   "de-duplication rule never merges pairs farther apart than 2^-36 sqrt 2 and always merges an exact repeat (hand model "
-                  "of add_intersection, thresholds read from the source, exact correspondence). NOT PROVED: that subdivision + Newton "
+                  "of add_intersection, thresholds read from the source, exact correspondence); the subdivision stage never drops a common "
+                  "point: the pair of restrictions that covers it is never classified DISJOINT by the regenerated bbox_intersect and one of its "
+                  "four pairs of halves covers it again (every degree, real parameters); the candidate flow of all_intersections (from_shape, "
+                  "subdivide, intersect_one_round, the 64-candidate rule with convex-hull pruning, check_lines hand-over) is an executable model "
+                  "corresponded round by round with the real loop (end-games recorded). NOT PROVED: that subdivision + Newton "
                   "converges to every crossing: support sweep on line-vs-curve pairs (curve degree 2-6) whose crossings are certified "
                   "simple, separated and well conditioned by exact Sturm isolation, both configurations",
                   unproved=["convergence of the subdivision / Newton pipeline to each crossing (support sweep)",
-                            "candidate pruning above 64 pairs and the 20-round budget",
+                            "candidates replaced by their chord (Linearization with non-zero error), the end-games (tangent boxes, from_linearized + Newton), convex-hull pruning beyond the lattice hull theorem, and the 20-round budget",
                             "tangent-box handling drops crossings when a whole curve lies in the tangency line (known finding F2; certified family swept)"])
